@@ -671,39 +671,9 @@ func ConvertSliceValueType(destTyp reflect.Type, v reflect.Value) (reflect.Value
 		return _zeroValue, nil
 	}
 
-	elemKind := destTyp.Elem().Kind()
-	elemPtrType := elemKind == reflect.Ptr
-	elemFloatType := FloatKind(elemKind)
-	elemIntType := IntKind(elemKind)
-	elemUintType := UintKind(elemKind)
-
-	sl := reflect.MakeSlice(destTyp, v.Len(), v.Len())
-	var itemValue reflect.Value
-	for i := 0; i < v.Len(); i++ {
-		item := v.Index(i).Interface()
-		if cv, ok := item.(reflect.Value); ok {
-			itemValue = cv
-		} else {
-			itemValue = reflect.ValueOf(item)
-		}
-
-		if !elemPtrType && itemValue.Kind() == reflect.Ptr {
-			itemValue = UnpackPtrValue(itemValue)
-		}
-
-		switch {
-		case elemFloatType:
-			sl.Index(i).SetFloat(EnsureFloat64(itemValue.Interface()))
-		case elemIntType:
-			sl.Index(i).SetInt(EnsureInt64(itemValue.Interface()))
-		case elemUintType:
-			sl.Index(i).SetUint(EnsureUint64(itemValue.Interface()))
-		default:
-			SetValue(sl.Index(i), itemValue)
-		}
-	}
-
-	return sl, nil
+	// element by element, with one memo for the whole list: elements that are the same list
+	// (or slices of one growing list) are converted once
+	return convertValue(v, destTyp)
 }
 
 func findField(name string, typ reflect.Type) (int, error) {
